@@ -80,10 +80,17 @@ def _lm_case(draw, tier, dense=False):
             index = st.integers(0, total - 1)
             if profile == "mid_c" and last:
                 # 4-grams (a, b, 6, 6): their parents are the last trigram nodes of the reverse trie
-                index = st.one_of(index, st.integers(0, 48).map(lambda k: k * 49 + 48))
-            ents = draw(st.lists(
-                st.tuples(index, _p8(), _B8),
-                min_size=1 if last else 0, max_size=cap, unique_by=lambda e: e[0]))
+                index = st.integers(0, 48).map(lambda k: k * 49 + 48)
+            if m == 1 and n > 1:
+                # unigrams mostly present (a missing unigram makes every query for it -inf, whatever
+                # the back-off path) - each symbol is listed with probability 5/6
+                per = draw(st.lists(st.one_of(*([st.tuples(_p8(), _B8)] * 5 + [st.none()])),
+                                    min_size=total, max_size=total))
+                ents = [(i, e[0], e[1]) for i, e in enumerate(per) if e is not None]
+            else:
+                ents = draw(st.lists(
+                    st.tuples(index, _p8(), _B8),
+                    min_size=1 if last else 0, max_size=cap, unique_by=lambda e: e[0]))
             tables.append({"entries": [list(e) for e in ents]})
     Tmax = 6 if not big else 9
     T = draw(st.sampled_from([2, 1, 3, 0, 4, 5, 6, 3, 4, 5] + list(range(7, Tmax + 1))))
@@ -263,7 +270,7 @@ subcheck("C06", "katz", _lm_strategy, 700, 20000,
          required_classes=["missing_entry", "hit_top", "ctx_absent", "sos_out_of_vocab", "missing_suffix",
                            "oov_sos_in_context", "listed_neginf"])(_lm_check)
 
-subcheck("C06", "katz_dense", _dense_strategy, 60, 1500,
+subcheck("C06", "katz_dense", _dense_strategy, 120, 2500,
          doc="nearly complete tables of order 2..4 (up to 1400 n-grams, offsets beyond 8 bits): same comparisons",
          required_classes=["offsets_wider_than_8_bit", "parent_index_beyond_255_with_8_bit_offsets"])(_lm_check)
 
